@@ -309,6 +309,10 @@ def run(ctx):
                               node=c, witness="the rendered script contains the bare value (identifier/garbage instead of a string)")
     ctx.need("F5a", "string / string-list argument sites", n5, 12)
 
+    # ---- the rendering itself goes through Command.tosieve: its disciplines (S1-S5 of C04) are part of this property's mechanism
+    from .c04 import serializer_rules
+    serializer_rules(ctx, PR)
+
     # ---- F6 -----------------------------------------------------------------------
     ctx.rule("F6", "a value that may be a list is not used as a dictionary key")
     f = R.create
